@@ -19,7 +19,7 @@ func init() {
 	})
 	register(&propDef{
 		id: "C11",
-		explanation: "Decides the structural clause of C11: from each of the four line entry points the line state machine (executeInternalPath64) and the non-closing extractor (getPathRectClipLine) are call-graph reachable, and the polygon machine (RectClip64.executeInternal, checkEdges, tidyEdgePair — which close paths up through rectangle corners) is NOT reachable (C11.reach); the driver used for lines skips paths shorter than 2, not 3 (C11.len). Does NOT decide the crossing logic of the line machine.",
+		explanation: "Decides the structural clause of C11: from each of the four line entry points the line state machine (executeInternalPath64) and the non-closing extractor (getPathRectClipLine) are call-graph reachable, and the polygon machine (RectClip64.executeInternal, checkEdges, tidyEdgePair — which close paths up through rectangle corners) is NOT reachable (C11.reach); the driver skips one-point paths, clips two-point paths, appends only the extractor's output, and the extractor emits every ring node unfiltered (C11.extract); the main scan starts at index 1 on every entry (C11.start); the four end-point blocks of getSegmentIntersection are images of one another (C11.mirror.seg). Does NOT decide the crossing logic of the line machine.",
 		notDecided: []string{"crossing/intersection logic of executeInternalPath64", "1-unit rounding of intersection points", "coverage of the inside parts"},
 		rules: []func(*Ctx){
 			ruleReach("C11.reach", func() []reachReq {
